@@ -32,7 +32,9 @@ CONSTANTS
   Keys,        \* set of route keys
   Writers,     \* set of writer ids (positive integers)
   Readers,     \* set of reader ids
-  Prog,        \* Prog[i] = [single |-> BOOLEAN, ops |-> sequence of <<kind, key>>, end |-> "commit" | "abort"]
+  Prog,        \* Prog[i] = [single |-> BOOLEAN, ops |-> sequence of <<kind, key, tag>>, end |-> "commit" | "abort"]
+               \* (the program writer i runs in the model-checking instances; trace validation takes the
+               \* program of each call from the recorded events instead)
   ReadCalls,   \* set of <<"has", key>> / <<"len">> / <<"all">> calls a reader may issue
   MaxReads,    \* reads per reader
   InitMap,     \* the registered set published before anybody starts (Keys -> tag)
@@ -48,9 +50,9 @@ ver == Len(hist)
 pub == hist[ver]
 
 Empty == [k \in Keys |-> 0]
-Tag(i, step) == i * 10 + step
+NoProg == [single |-> TRUE, ops |-> <<>>, end |-> "commit"]
 
-WIdle == [pc |-> "idle", work |-> Empty, base |-> 0, step |-> 0, res |-> <<>>]
+WIdle == [pc |-> "idle", prog |-> NoProg, work |-> Empty, base |-> 0, step |-> 0, res |-> <<>>]
 RIdle == [pc |-> "idle", seen |-> 0, last |-> 0, call |-> <<"len">>, n |-> 0]
 
 Init ==
@@ -61,9 +63,9 @@ Init ==
 
 Obs(proc, id, act, arg, res) == [proc |-> proc, id |-> id, act |-> act, arg |-> arg, res |-> res]
 
-\* sequential meaning of one write on a map
-ApplyOp(m, o, tag) ==
-  LET kind == o[1]  k == o[2] IN
+\* sequential meaning of one write <<kind, key, tag>> on a map
+ApplyOp(m, o) ==
+  LET kind == o[1]  k == o[2]  tag == o[3] IN
   CASE kind = "Handle" -> IF m[k] = 0 THEN [m |-> [m EXCEPT ![k] = tag], err |-> "ok"] ELSE [m |-> m, err |-> "exist"]
     [] kind = "Update" -> IF m[k] # 0 THEN [m |-> [m EXCEPT ![k] = tag], err |-> "ok"] ELSE [m |-> m, err |-> "notfound"]
     [] kind = "Delete" -> IF m[k] # 0 THEN [m |-> [m EXCEPT ![k] = 0], err |-> "ok"] ELSE [m |-> m, err |-> "notfound"]
@@ -73,9 +75,10 @@ Holding(i) == w[i].pc \in {"locked", "open", "prestore", "stored", "aborting"}
 
 --------------------------------------------------------------------------
 \* Writers
-CallBegin(i) ==
-  /\ w[i].pc = "idle"
-  /\ w' = [w EXCEPT ![i].pc = "waiting",
+\* a goroutine may issue one call after the other ("done" -> next call)
+CallBegin(i, prog) ==
+  /\ w[i].pc \in {"idle", "done"}
+  /\ w' = [w EXCEPT ![i].pc = "waiting", ![i].prog = prog, ![i].step = 0, ![i].res = <<>>,
                     ![i].work = IF Broken = "loadfirst" THEN pub ELSE @,
                     ![i].base = IF Broken = "loadfirst" THEN ver ELSE @]
   /\ op' = Obs("w", i, "CallBegin", <<>>, <<>>)
@@ -109,26 +112,26 @@ LoadRoot(i) ==
 \* one-call helper (Router.Handle/Update/Delete): runs its single write and heads for the store, or for
 \* the abort path when the write failed
 RunSingle(i) ==
-  /\ w[i].pc = "open" /\ Prog[i].single
-  /\ LET r == ApplyOp(w[i].work, Prog[i].ops[1], Tag(i, 1)) IN
+  /\ w[i].pc = "open" /\ w[i].prog.single
+  /\ LET r == ApplyOp(w[i].work, w[i].prog.ops[1]) IN
      /\ w' = [w EXCEPT ![i].work = r.m, ![i].step = 1, ![i].res = <<r.err>>,
                        ![i].pc = IF r.err = "ok" THEN "prestore" ELSE "aborting"]
-     /\ op' = Obs("w", i, "RunSingle", Prog[i].ops[1], <<r.err>>)
+     /\ op' = Obs("w", i, "RunSingle", w[i].prog.ops[1], <<r.err>>)
   /\ UNCHANGED <<hist, lock, rd>>
 
 \* explicit transaction: writes one by one, then Commit or Abort
 TxnOp(i) ==
-  /\ w[i].pc = "open" /\ ~Prog[i].single /\ w[i].step < Len(Prog[i].ops)
+  /\ w[i].pc = "open" /\ ~w[i].prog.single /\ w[i].step < Len(w[i].prog.ops)
   /\ LET s == w[i].step + 1
-         r == ApplyOp(w[i].work, Prog[i].ops[s], Tag(i, s)) IN
+         r == ApplyOp(w[i].work, w[i].prog.ops[s]) IN
      /\ w' = [w EXCEPT ![i].work = r.m, ![i].step = s, ![i].res = Append(@, r.err)]
-     /\ op' = Obs("w", i, "TxnOp", Prog[i].ops[s], <<r.err>>)
+     /\ op' = Obs("w", i, "TxnOp", w[i].prog.ops[s], <<r.err>>)
   /\ UNCHANGED <<hist, lock, rd>>
 
 CallEnd(i) ==
-  /\ w[i].pc = "open" /\ ~Prog[i].single /\ w[i].step = Len(Prog[i].ops)
-  /\ w' = [w EXCEPT ![i].pc = IF Prog[i].end = "commit" THEN "prestore" ELSE "aborting"]
-  /\ op' = Obs("w", i, "CallEnd", <<Prog[i].end>>, <<>>)
+  /\ w[i].pc = "open" /\ ~w[i].prog.single /\ w[i].step = Len(w[i].prog.ops)
+  /\ w' = [w EXCEPT ![i].pc = IF w[i].prog.end = "commit" THEN "prestore" ELSE "aborting"]
+  /\ op' = Obs("w", i, "CallEnd", <<w[i].prog.end>>, <<>>)
   /\ UNCHANGED <<hist, lock, rd>>
 
 Store(i) ==
@@ -170,11 +173,14 @@ Eval(call, m) ==
     [] call[1] = "len" -> <<Cardinality({k \in Keys : m[k] # 0})>>
     [] call[1] = "all" -> <<m>>
 
-RLoad(j, call) ==
+\* the atomic load returns version v; in the model-checking instances v is always the current version,
+\* trace validation may have to place the load a little earlier (see Trace_Conc)
+RLoadAt(j, call, v) ==
   /\ rd[j].pc = "idle" /\ rd[j].n < MaxReads
-  /\ rd' = [rd EXCEPT ![j].pc = "loaded", ![j].seen = ver, ![j].call = call]
+  /\ rd' = [rd EXCEPT ![j].pc = "loaded", ![j].seen = v, ![j].call = call]
   /\ op' = Obs("r", j, "RLoad", call, <<>>)
   /\ UNCHANGED <<hist, lock, w>>
+RLoad(j, call) == RLoadAt(j, call, ver)
 
 RReturn(j) ==
   /\ rd[j].pc = "loaded"
@@ -184,7 +190,7 @@ RReturn(j) ==
 
 --------------------------------------------------------------------------
 WriterStep(i) ==
-  \/ CallBegin(i) \/ Acquire(i) \/ TryAcquire(i) \/ LoadRoot(i) \/ RunSingle(i) \/ TxnOp(i) \/ CallEnd(i)
+  \/ (w[i].pc = "idle" /\ CallBegin(i, Prog[i])) \/ Acquire(i) \/ TryAcquire(i) \/ LoadRoot(i) \/ RunSingle(i) \/ TxnOp(i) \/ CallEnd(i)
   \/ Store(i) \/ Unlock(i) \/ UnlockEarly(i) \/ Return(i)
 ReaderStep(j) == (\E c \in ReadCalls : RLoad(j, c)) \/ RReturn(j)
 
@@ -230,15 +236,12 @@ ReaderProgress == \A j \in Readers : (rd[j].pc = "loaded") ~> (rd[j].pc = "idle"
 
 \* C05: when everybody is done, the published map is the result of the committed programs applied
 \* one after the other in the order of their stores (each on top of the previous publication)
-RECURSIVE RunProg(_, _, _, _)
-RunProg(m, i, s, ops) ==
-  IF s > Len(ops) THEN m ELSE RunProg(ApplyOp(m, ops[s], Tag(i, s)).m, i, s + 1, ops)
-
-Committed(i) == w[i].pc \in {"stored", "unlocked", "done"} /\ w[i].res # <<>> /\
-                (Prog[i].single => w[i].res[1] = "ok") /\ (~Prog[i].single => Prog[i].end = "commit")
+RECURSIVE RunProg(_, _, _)
+RunProg(m, s, ops) ==
+  IF s > Len(ops) THEN m ELSE RunProg(ApplyOp(m, ops[s]).m, s + 1, ops)
 
 \* every published version is the committing writer's program applied to the previous version
-LastIsProgOn(i) == w[i].work = RunProg(pub, i, 1, Prog[i].ops)
+LastIsProgOn(i) == w[i].work = RunProg(pub, 1, w[i].prog.ops)
 StepwiseSerial ==
   [][ hist' # hist =>
         \E i \in Writers : /\ w[i].pc = "prestore"
